@@ -468,10 +468,12 @@ Qed.
 (** ** [unroll_arg_requires] computes a set closed under the fired [requires] edges *)
 Section Unroll.
 Variable func : pred * id -> option id.
+Variable root : id.
 
 Definition needs_visit (y : id) : Prop := exists req, find_arg c y = Some req /\ a_requires req <> [].
 Definition goodW (S : list id) (x : id) : Prop :=
-  forall b, find_arg c x = Some b -> forall r, In r (filter_map func (a_requires b)) -> In r S.
+  forall b, find_arg c x = Some b ->
+  forall r, In r (filter_map (relevant_rule func (beq x root)) (a_requires b)) -> In r S.
 
 Definition ur_inner (acc : list id * list id) (r : id) : list id * list id :=
   let '(args, pushed) := acc in
@@ -493,7 +495,7 @@ Proof.
 Qed.
 
 Lemma loop_closed : forall fuel r_vec processed args out,
-  unroll_requires_loop c func fuel r_vec processed args = Some out ->
+  unroll_requires_loop c func root fuel r_vec processed args = Some out ->
   (forall x, In x processed -> goodW args x) ->
   (forall y, In y args -> needs_visit y -> In y processed \/ In y r_vec) ->
   incl args out /\ (forall x, In x processed \/ In x r_vec -> goodW out x)
@@ -528,7 +530,7 @@ Proof.
         -- intros y Hy Hn. rewrite !in_app_iff. cbn. destruct (H2 y Hy Hn) as [H'|[<-|H']]; auto.
 Qed.
 
-Lemma unroll_closed root out : unroll_arg_requires c func root = Some out ->
+Lemma unroll_closed out : unroll_arg_requires c func root = Some out ->
   goodW out root /\ forall y, In y out -> needs_visit y -> goodW out y.
 Proof.
   unfold unroll_arg_requires. intros H. apply loop_closed in H as (_ & Hb & Hc).
@@ -558,10 +560,12 @@ Proof.
   intros H. apply unroll_closed in H as [Hroot Hcl]. intros y HR.
   induction HR as [a p y Ha Hin Hh | x b y HR IH Hb Hin].
   - apply (Hroot a Ha). apply (filter_map_In _ _ (p, y)); [exact Hin|].
-    unfold is_relevant. cbn [fst snd]. apply check_explicit_m_spec in Hh. now rewrite Hh.
+    unfold relevant_rule, is_relevant. rewrite beq_refl. cbn [orb fst snd].
+    apply check_explicit_m_spec in Hh. now rewrite Hh.
   - assert (needs_visit x) as Hn. { exists b. split; [exact Hb|]. intros E. rewrite E in Hin. destruct Hin. }
     apply (Hcl x IH Hn b Hb). apply (filter_map_In _ _ (PIsPresent, y)); [exact Hin|].
-    unfold is_relevant. cbn [fst snd]. apply ReqBy_explicit in HR. apply explicit_m_spec in HR. now rewrite HR.
+    unfold relevant_rule, is_relevant. cbn [fst snd pred_is_present]. rewrite orb_true_r.
+    apply ReqBy_explicit in HR. apply explicit_m_spec in HR. now rewrite HR.
 Qed.
 
 (** ** [gather_requires] *)
@@ -1227,9 +1231,9 @@ Proof.
     destruct (find_arg c r) as [req|]; [destruct (negb _)|]; cbn [length] in H; lia.
 Qed.
 
-Lemma unroll_requires_loop_total func : forall fuel r_vec processed args,
+Lemma unroll_requires_loop_total func root : forall fuel r_vec processed args,
   (length r_vec + wsum processed (c_args c) < fuel)%nat ->
-  exists out, unroll_requires_loop c func fuel r_vec processed args = Some out.
+  exists out, unroll_requires_loop c func root fuel r_vec processed args = Some out.
 Proof.
   induction fuel as [|fuel IH]; intros r_vec processed args Hlt; [lia|]. cbn [unroll_requires_loop].
   destruct r_vec as [|a rest]; [eauto|]. cbn [length] in Hlt.
@@ -1238,7 +1242,7 @@ Proof.
   - destruct (find_arg c a) as [arg|] eqn:Ea.
     + fold (ur_inner c). destruct (fold_left (ur_inner c) _ _) as [args' pushed] eqn:Ef.
       apply ur_inner_length in Ef. cbn [length] in Ef.
-      pose proof (filter_map_length func (a_requires arg)).
+      pose proof (filter_map_length (relevant_rule func (beq a root)) (a_requires arg)).
       pose proof (wsum_take a processed (c_args c) arg Ea Em).
       apply IH. rewrite app_length. lia.
     + apply IH. pose proof (wsum_mono processed [a] (c_args c)). lia.
